@@ -623,18 +623,21 @@ func cmdIntenc(args []string) int {
 	exit := 0
 	nviol := 0
 	seenKey := map[string]bool{}
+	pendingInconc := map[string]string{}
 	knownList := loadKnown(filepath.Join(*verif, "known_findings.txt"))
 	for i, v := range viols {
 		key := v.def.pkg + "." + v.def.fn.Name() + "/" + strings.ReplaceAll(v.reg.name, " ", "_")
 		if seenKey[key] {
 			continue
 		}
-		seenKey[key] = true
 		ok, obs, rp := replayScale(*verif, *repo, v.def.pkg, v.def.fn, v.model, i)
 		if !ok {
-			inconc = append(inconc, fmt.Sprintf("model for %s (%s) did not reproduce natively: %s", key, v.what, truncate(obs, 200)))
+			// another obligation of the same function and regime may have a model that does reproduce
+			pendingInconc[key] = fmt.Sprintf("model for %s (%s) did not reproduce natively: %s", key, v.what, truncate(obs, 200))
 			continue
 		}
+		seenKey[key] = true
+		delete(pendingInconc, key)
 		isKnown := false
 		for _, k := range knownList {
 			if k.property == prop && k.key == key {
@@ -648,6 +651,11 @@ func cmdIntenc(args []string) int {
 		fmt.Printf("VIOLATION property=%s replay=%s\n  key=%s\n  %s\n  model %v\n  native: %s\n", prop, rp, key, v.what, v.model, truncate(obs, 300))
 		nviol++
 		exit = 1
+	}
+	for k, msg := range pendingInconc {
+		if !seenKey[k] {
+			inconc = append(inconc, msg)
+		}
 	}
 	for _, n := range notes {
 		fmt.Println("NOTE:", n)
@@ -694,7 +702,13 @@ func replayScale(verif, repo, pkgRel string, fn *ssa.Function, model map[string]
 		return fmt.Sprintf("big.NewInt(int64(a%d))", o.param)
 	}
 	var sb strings.Builder
-	fmt.Fprintf(&sb, "package %s\n\nimport (\n\t\"fmt\"\n\t\"math/big\"\n\t\"testing\"\n)\n\n", pkgName)
+	extraImports := ""
+	for _, a := range args {
+		if strings.Contains(a, "time.") && !strings.Contains(extraImports, "time") {
+			extraImports += "\t\"time\"\n"
+		}
+	}
+	fmt.Fprintf(&sb, "package %s\n\nimport (\n\t\"fmt\"\n\t\"math/big\"\n\t\"testing\"\n%s)\n\n", pkgName, extraImports)
 	sb.WriteString("func TestVerifC24Replay(t *testing.T) {\n")
 	for i, a := range args {
 		fmt.Fprintf(&sb, "\ta%d := %s\n", i, a)
